@@ -440,7 +440,19 @@ where
         x: &AssignedBigUint<F>,
         y: &AssignedBigUint<F>,
     ) -> Result<(AssignedBigUint<F>, AssignedBigUint<F>), Error> {
-        let (q_value, r_value) = x.value().zip(y.value()).map(|(x, y)| x.div_rem(&y)).unzip();
+        // If y = 0, no (q, r) exists and the circuit is unsatisfiable (r < y below);
+        // the values assigned in that case are irrelevant.
+        let (q_value, r_value) = x
+            .value()
+            .zip(y.value())
+            .map(|(x, y)| {
+                if y == BigUint::ZERO {
+                    (BigUint::ZERO, x)
+                } else {
+                    x.div_rem(&y)
+                }
+            })
+            .unzip();
 
         let q = self.assign_bounded(layouter, q_value, x.nb_bits())?;
         let r = self.assign_bounded(layouter, r_value, y.nb_bits())?;
